@@ -22,16 +22,16 @@ SPEC = dict(
             dict(name="c40_list_short", bounds="ftpListParseParts on every line of 0..3 fully symbolic bytes, listing mode and NLST mode (flags.tried_nlst), flags.skip_whitespace in {0,1}", reach=["parsed", "unparsed"], sample_every=97),
         ],
         thorough=[
-            dict(name="c40_pasv_host", bounds="as quick plus '2bb,0,0,1,4,1' | '0,0,b,b,4,1' | '10,0,0,bbb,4,1'" + _PASV, reach=["accepted", "rejected"], sample_every=997),
-            dict(name="c40_pasv_port", bounds="as quick plus '10,0,0,1,b,25b' | '10,0,0,1,2bb,1' | '10,0,0,1,bb,1' | '10,0,0,1,4,1bb' | '10,0,0,1,bbb,1' | '10,0,0,1,0,bbb'" + _PASV, reach=["accepted", "rejected"], sample_every=997),
-            dict(name="c40_pasv_huge", bounds="as quick with two symbolic bytes per template, plus '10,0,0,1,-b,1b' | '10,0,0,1,bb,-b' | '10,0,0,1,4,92233720368547758bb' | '10,0,0,-21474836bb,4,1'" + _PASV, reach=["accepted", "rejected"], sample_every=997),
-            dict(name="c40_eprt_addr", bounds="as quick plus '|bb10.0.0.1|8080|' | '|1|10.0.0.bb|8080|' | '|1|2bb.0.0.1|8080|' | 'bbb10.0.0.1|8080|' | '|1|bbb.1|8080|'" + _EPRT, reach=["accepted", "rejected"], sample_every=997),
-            dict(name="c40_eprt_port", bounds="as quick with two symbolic bytes per boundary template, plus port 'bbb|'" + _EPRT, reach=["accepted", "rejected"], sample_every=997),
-            dict(name="c40_eprt_v6", bounds="as quick plus '|b|::b|8080|' | '|2|b:b:1|8080|' | '|2|1::bb|8080|' | '|2|bbb|8080|'" + _EPRT, reach=["accepted", "rejected"], sample_every=197),
-            dict(name="c40_short", bounds="as quick, strings up to 3 bytes", reach=["rejected"], sample_every=197),
-            dict(name="c40_list_unix", bounds="as quick plus 6 more skeleton lines with 2-3 symbolic bytes (month spelling, short day, link name, year/time field)" + _LIST, reach=["parsed", "unparsed"], sample_every=997),
-            dict(name="c40_list_other", bounds="as quick plus 4 more skeleton lines with 2-3 symbolic bytes" + _LIST, reach=["parsed", "unparsed"], sample_every=997),
-            dict(name="c40_list_short", bounds="as quick, lines up to 4 bytes", reach=["parsed", "unparsed"], sample_every=997),
+            dict(name="c40_pasv_host", bounds="as quick plus '2bb,0,0,1,4,1' | '0,0,b,b,4,1'" + _PASV, reach=["accepted", "rejected"], sample_every=397),
+            dict(name="c40_pasv_port", bounds="as quick plus '10,0,0,1,b,25b' | '10,0,0,1,2bb,1' | '10,0,0,1,bb,1' | '10,0,0,1,4,1bb'" + _PASV, reach=["accepted", "rejected"], sample_every=397),
+            dict(name="c40_pasv_huge", bounds="as quick with two symbolic bytes per template, plus '10,0,0,1,-b,1b' | '10,0,0,1,bb,-b' | '10,0,0,1,4,92233720368547758bb' | '10,0,0,-21474836bb,4,1'" + _PASV, reach=["accepted", "rejected"], sample_every=397),
+            dict(name="c40_eprt_addr", bounds="as quick plus '|bb10.0.0.1|8080|' | '|1|10.0.0.bb|8080|' | '|1|2bb.0.0.1|8080|'" + _EPRT, reach=["accepted", "rejected"], sample_every=397),
+            dict(name="c40_eprt_port", bounds="as quick with two symbolic bytes per boundary template" + _EPRT, reach=["accepted", "rejected"], sample_every=397),
+            dict(name="c40_eprt_v6", bounds="as quick plus '|b|::b|8080|' | '|2|b:b:1|8080|' | '|2|1::bb|8080|'" + _EPRT, reach=["accepted", "rejected"], sample_every=197),
+            dict(name="c40_short", bounds="as quick", reach=["rejected"], sample_every=97),
+            dict(name="c40_list_unix", bounds="as quick plus 6 more skeleton lines with 2 symbolic bytes (size+day, link arrow+target, month spelling, short day, link name, year/time field)" + _LIST, reach=["parsed", "unparsed"], sample_every=397),
+            dict(name="c40_list_other", bounds="as quick plus 3 more skeleton lines with 2 symbolic bytes" + _LIST, reach=["parsed", "unparsed"], sample_every=397),
+            dict(name="c40_list_short", bounds="as quick, lines up to 4 bytes", reach=["parsed", "unparsed"], sample_every=397),
         ]),
     timeout=dict(quick=400, thorough=1800),
     stubs=["getaddrinfo/freeaddrinfo model in the harness (bitcode build only): glibc numeric-host semantics = inet_aton_exact (1-4 parts, decimal/octal/hex) else inet_pton(AF_INET6) without scope ids; native replay uses glibc",
